@@ -10,7 +10,7 @@ EXPLANATION = ('Decides from MIR: (R12.1) collision taint: joint vectors obtaine
                'element of the first half and recursion is bounded by linear_recursion_depth; (R12.5) LAND first / PARK last with the caller\'s '
                'poses, TRACE poses from steps, interpolated poses flagged LIN_INTERP with one fraction for translation and rotation; '
                '(R12.6) the stop flag is raised only after a successful probe and otherwise only loaded.  Linearity of waypoints and the '
-               'sufficiency of the check step are numerical and not decided.  (R11.5) `collides` of the robot with shape is the query of its body, unchanged.')
+               'sufficiency of the check step are numerical and not decided.  (R11.5) `collides` of the robot with shape is the query of its body, unchanged.  The strategies are inverse_continuing(land, from) of the caller (R12.2), the candidates of a transition inverse_continuing(to.pose, starting) and the acceptance limit the configured max_transition_cost as it is (R12.4).')
 NOT_DECIDED = 'that waypoints lie on the straight segment and reproduce the poses (lerp/slerp + IK numerics); sufficiency of the check step'
 ASSUMPTIONS = ['KinematicsWithShape inverse methods and plan_rrt return only configurations reported collision-free (C11, C13)']
 
@@ -184,6 +184,7 @@ def _swept_before(prog, probe, trace_local, blk):
 
 def run(ctx):
     prog = ctx.prog
+    _flag_constants(ctx, prog)
     from .C11 import shape_wrappers
     shape_wrappers(ctx, prog)
     ctx.rule('R12.1', 'joint vectors from the raw (not collision-filtered) kinematics must pass a collides()==false edge before reaching Ok(trace)')
@@ -246,6 +247,11 @@ def run(ctx):
     for bi, t in plan.calls():
         if cname(callee_name(t)) == 'Kinematics::inverse_continuing':
             src = callee_name(t)
+            # .. of the landing pose, continuing from the given start: plan(&self, from, land, steps, park)
+            pa = [util.param_index(plan.op_term(a, (bi, None))) for a in t['args'][1:3]]
+            ctx.check(pa == [3, 2], 'R12.2', 'strategies-of-landing', plan.where(bi), plan.path,
+                      'the strategies must be the solutions of the landing pose nearest to the start configuration: inverse_continuing(land, from)',
+                      found='inverse_continuing(param %s, param %s)' % tuple(pa), expected='inverse_continuing(param 3, param 2)')
     ctx.check(strat_ok and src is not None and src.startswith(KWS_IMPL), 'R12.1', 'strategies', plan.where(0), plan.path,
               'landing strategies must come from the collision-aware inverse of the robot with shape', found=src)
     first = [(bi, t) for bi, t in plan.calls() if cname(callee_name(t)) == 'KinematicsWithShape::collides']
@@ -358,9 +364,22 @@ def run(ctx):
                         same_next = elem is not None and strip(lhs[3]) == elem
                         start_ok = util.is_param(lhs[2], 2)
                         coef_ok = 'transition_coefficients' in show(lhs[4], maxdepth=4)
-                        lim_ok = 'max_transition_cost' in show(rhs, maxdepth=4)
+                        # the limit is the configured one as it is (a scaled limit admits jumps the caller ruled out)
+                        lim_ok = isinstance(rhs, tuple) and rhs[0] == 'fld' and rhs[2] == 'max_transition_cost' and util.is_param(rhs[1], 1)
                         found = 'cost(%s, %s, %s) %s %s' % (show(lhs[2]), show(lhs[3], maxdepth=3), show(lhs[4], maxdepth=3), g[1], show(rhs, maxdepth=3))
                         acc = same_next and start_ok and coef_ok and lim_ok
+    # the candidates are the solutions of the pose the transition leads TO, continued from the joints it starts at
+    iks = [(bi, t) for bi, t in step.calls() if cname(callee_name(t)) == 'Kinematics::inverse_continuing']
+    if iks:
+        bi, t = iks[0]
+        pose_t, prev_t = strip(step.op_term(t['args'][1], (bi, None))), strip(step.op_term(t['args'][2], (bi, None)))
+        tys = [step.local_ty(k) for k in range(1, step.arg_count + 1)]
+        ann = [k + 1 for k, ty in enumerate(tys) if 'AnnotatedPose' in ty]
+        ok_ik = len(iks) == 1 and len(ann) == 2 and isinstance(pose_t, tuple) and pose_t[0] == 'fld' and pose_t[2] == 'pose' and \
+            util.param_index(pose_t[1]) == ann[1] and util.is_param(prev_t, 2)
+        ctx.check(ok_ik, 'R12.4', 'candidates', step.where(bi), step.path,
+                  'the candidates of a transition must be the solutions of its target pose continued from its starting joints: inverse_continuing(to.pose, starting)',
+                  found='inverse_continuing(%s, %s)' % (show(pose_t, maxdepth=3), show(prev_t, maxdepth=3)))
     ctx.check(acc, 'R12.4', 'accept', step.where(0), step.path,
               'a step must be accepted only when its own transition cost from `starting` is within max_transition_cost', found=found, detail=found or '')
     _cost_formula(ctx, prog, step)
@@ -920,3 +939,45 @@ def _stop_flag(ctx, prog, plan, probe, plan_cl):
     rrt = [(bi, t) for bi, t in probe.calls() if cname(callee_name(t)) == 'RRTPlanner::plan_rrt']
     ok = ok and all(util.param_index(probe.op_term(t['args'][4], (bi, None))) is not None for bi, t in rrt) and len(rrt) >= 1
     ctx.check(ok, 'R12.6', 'shared-flag', probe.where(0), probe.path, 'probes must load, and hand to RRT, the shared stop flag they were given')
+
+
+def _flag_constants(ctx, prog):
+    """R12.7: the waypoint flags can be told apart: every flag the planner assigns is a single bit of its own, and the mask
+    CARTESIAN is LIN_INTERP | LAND | PARK"""
+    ctx.rule('R12.7', 'the path flags assigned by the planner are distinct single bits; CARTESIAN = LIN_INTERP | LAND | PARK')
+
+    def bits(t, depth=0):
+        t = strip(t)
+        c = util.const_val(t)
+        if isinstance(c, int) and not isinstance(c, bool):
+            return c
+        if not isinstance(t, tuple) or depth > 6:
+            return None
+        if t[0] == 'call' and len(t) == 3 and cname(t[1]).split('::')[-1] in ('from_bits_retain', 'from_bits_truncate', 'bits'):
+            return bits(t[2], depth + 1)
+        if t[0] == 'bin' and t[1] in ('Shl', 'BitOr', 'ShlUnchecked'):
+            a, b_ = bits(t[2], depth + 1), bits(t[3], depth + 1)
+            if a is None or b_ is None:
+                return None
+            return (a << b_) if t[1].startswith('Shl') else (a | b_)
+        if t[0] == 'const' and isinstance(t[2], str) and t[2] in prog.consts:
+            return bits(prog.const_term(t[2]), depth + 1)
+        if t[0] == 'fld':
+            return bits(t[1], depth + 1)
+        return None
+    vals = {}
+    for k in prog.consts:
+        if '::PathFlags::' in k:
+            vals[k.split('::')[-1]] = bits(prog.const_term(k))
+    used = ['ONBOARDING', 'TRACE', 'LIN_INTERP', 'LAND', 'PARK']
+    if not all(u in vals for u in used):
+        return                               # the flags are not named constants of this shape: nothing to compare
+    single = all(isinstance(vals[u], int) and vals[u] > 0 and vals[u] & (vals[u] - 1) == 0 for u in used)
+    distinct = len({vals[u] for u in used}) == len(used)
+    ctx.check(single and distinct, 'R12.7', 'distinct-bits', 'src/path_plan/cartesian.rs', 'cartesian::PathFlags',
+              'ONBOARDING, TRACE, LIN_INTERP, LAND and PARK must be single bits of their own (a waypoint could not be told from another otherwise)',
+              found=str({u: vals[u] for u in used}))
+    if vals.get('CARTESIAN') is not None:
+        want = vals['LIN_INTERP'] | vals['LAND'] | vals['PARK'] if single else None
+        ctx.check(vals['CARTESIAN'] == want, 'R12.7', 'cartesian-mask', 'src/path_plan/cartesian.rs', 'cartesian::PathFlags',
+                  'CARTESIAN must be LIN_INTERP | LAND | PARK', found=str(vals.get('CARTESIAN')), expected=str(want))
